@@ -156,6 +156,23 @@ class StopRestart(Monitor):
             break
 
 
+def stop_point_reached(res, s1):
+    """No pooled task at or before the stop point is still to run."""
+    try:
+        sp = res.prog.ppoint(str(s1['stop_point']))
+    except Exception:
+        return False
+    for ident, d in s1['tasks'].items():
+        try:
+            p = res.prog.ppoint(ident.split('/')[0])
+        except Exception:
+            return False
+        if p <= sp and d['status'] in ('waiting', 'preparing', 'submitted',
+                                       'running'):
+            return False
+    return True
+
+
 def compare_snapshots(res, s1, s2, inc):
     preds = set()
     n_bad = n_known = 0
@@ -172,6 +189,15 @@ def compare_snapshots(res, s1, s2, inc):
     for key in ('hold_point', 'stop_point', 'stop_task', 'tasks_to_hold',
                 'broadcasts', 'flow_counter'):
         if s1[key] != s2[key]:
+            if key == 'stop_point' and s2[key] is None and stop_point_reached(
+                    res, s1):
+                # by design: once everything up to the stop point has run the
+                # scheduler forgets the stop point "in case of a restart"
+                # (the auto-shutdown decision and an operator stop can
+                # coincide); the restarted run then goes on to the final point
+                res.sim.probe('stop_point_reached_then_restart')
+                res.stop_point_forgotten = True
+                continue
             bad(key, {'before': s1[key], 'after': s2[key]})
     t1, t2 = s1['tasks'], s2['tasks']
     if set(t1) != set(t2):
@@ -286,7 +312,8 @@ def run(params):
     restarted = len(res.stops) > 1
     # (with delivery faults the two runs may legitimately differ through
     # the late-custom-output finding C10-F1: compare fault-free pairs only)
-    if restarted and not rates:
+    if restarted and not rates and not getattr(
+            res, 'stop_point_forgotten', False):
         lb, lr = launched_instances(base), launched_instances(res)
         if set(lb) != set(lr):
             res.violate('continued_run_instances_differ', {
@@ -298,6 +325,16 @@ def run(params):
             for k in sorted(set(base.db_outputs) | set(res.db_outputs)):
                 a, b = base.db_outputs.get(k, set()), res.db_outputs.get(k, set())
                 if a != b:
+                    # a custom output message sent while the scheduler was
+                    # down is lost; the restart poll finds it, but if the
+                    # job's final message is handled first it is ignored
+                    # (finding C10-F1): such instances are not compared
+                    lost = {m[4:] for kk, m in res.world.lost_msgs
+                            if kk[1] == k[0] and kk[0] == k[1]
+                            and m.startswith('msg ')}
+                    if lost and (a - b) <= lost and not (b - a):
+                        res.sim.probe('custom_output_lost_while_down')
+                        continue
                     diffs[f'{k[1]}/{k[0]}'] = [sorted(a), sorted(b)]
             if diffs:
                 res.violate('continued_run_final_outputs_differ', {
